@@ -357,3 +357,24 @@ Theorem C02_util_ptr_at_truncation_witness :
   Util.ptr_at true 32 0 2305843009213693951 8 = Ok 4294967288 /\ Util.ptr_at true 64 0 2305843009213693952 8 = Fault POverflow.
 Proof. exact UtilProofs.ptr_at_truncation_witness. Qed.
 Print Assumptions C02_util_ptr_at_truncation_witness.
+
+(* the values of the transcribed tables of Model/Util.v are the constants of src/image.rs (coq/gen/Consts.v is
+   regenerated from the source on every run): a changed constant breaks this theorem (third audit, F5: the lemma
+   file was outside every property's closure) *)
+From PV.Proofs Require UtilConsts.
+From PV.gen Require Consts.
+Theorem C02_util_tables_from_source :
+  map (fun r => snd r) Util.file_chars_table = [Consts.K_IMAGE_FILE_RELOCS_STRIPPED; Consts.K_IMAGE_FILE_EXECUTABLE_IMAGE; Consts.K_IMAGE_FILE_LINE_NUMS_STRIPPED; Consts.K_IMAGE_FILE_LOCAL_SYMS_STRIPPED; Consts.K_IMAGE_FILE_AGGRESIVE_WS_TRIM; Consts.K_IMAGE_FILE_LARGE_ADDRESS_AWARE; Consts.K_IMAGE_FILE_6; Consts.K_IMAGE_FILE_BYTES_REVERSED_LO; Consts.K_IMAGE_FILE_32BIT_MACHINE; Consts.K_IMAGE_FILE_DEBUG_STRIPPED; Consts.K_IMAGE_FILE_REMOVABLE_RUN_FROM_SWAP; Consts.K_IMAGE_FILE_NET_RUN_FROM_SWAP; Consts.K_IMAGE_FILE_SYSTEM; Consts.K_IMAGE_FILE_DLL; Consts.K_IMAGE_FILE_UP_SYSTEM_ONLY; Consts.K_IMAGE_FILE_BYTES_REVERSED_HI] /\
+  map (fun r => snd r) Util.dll_chars_table = [Consts.K_IMAGE_DLLCHARACTERISTICS_0; Consts.K_IMAGE_DLLCHARACTERISTICS_1; Consts.K_IMAGE_DLLCHARACTERISTICS_2; Consts.K_IMAGE_DLLCHARACTERISTICS_3; Consts.K_IMAGE_DLLCHARACTERISTICS_4; Consts.K_IMAGE_DLLCHARACTERISTICS_HIGH_ENTROPY_VA; Consts.K_IMAGE_DLLCHARACTERISTICS_DYNAMIC_BASE; Consts.K_IMAGE_DLLCHARACTERISTICS_FORCE_INTEGRITY; Consts.K_IMAGE_DLLCHARACTERISTICS_NX_COMPAT; Consts.K_IMAGE_DLLCHARACTERISTICS_NO_ISOLATION; Consts.K_IMAGE_DLLCHARACTERISTICS_NO_SEH; Consts.K_IMAGE_DLLCHARACTERISTICS_NO_BIND; Consts.K_IMAGE_DLLCHARACTERISTICS_APPCONTAINER; Consts.K_IMAGE_DLLCHARACTERISTICS_WDM_DRIVER; Consts.K_IMAGE_DLLCHARACTERISTICS_GUARD_CF; Consts.K_IMAGE_DLLCHARACTERISTICS_TERMINAL_SERVER_AWARE] /\
+  map (fun r => snd r) Util.section_chars_table = [Consts.K_IMAGE_SCN_0; Consts.K_IMAGE_SCN_1; Consts.K_IMAGE_SCN_2; Consts.K_IMAGE_SCN_TYPE_NO_PAD; Consts.K_IMAGE_SCN_4; Consts.K_IMAGE_SCN_CNT_CODE; Consts.K_IMAGE_SCN_CNT_INITIALIZED_DATA; Consts.K_IMAGE_SCN_CNT_UNINITIALIZED_DATA; Consts.K_IMAGE_SCN_LNK_OTHER; Consts.K_IMAGE_SCN_LNK_INFO; Consts.K_IMAGE_SCN_10; Consts.K_IMAGE_SCN_LNK_REMOVE; Consts.K_IMAGE_SCN_LNK_COMDAT; Consts.K_IMAGE_SCN_13; Consts.K_IMAGE_SCN_NO_DEFER_SPEC_EXC; Consts.K_IMAGE_SCN_GPREL; Consts.K_IMAGE_SCN_16; Consts.K_IMAGE_SCN_MEM_PURGEABLE; Consts.K_IMAGE_SCN_MEM_LOCKED; Consts.K_IMAGE_SCN_MEM_PRELOAD; Consts.K_IMAGE_SCN_ALIGN_1; Consts.K_IMAGE_SCN_ALIGN_2; Consts.K_IMAGE_SCN_ALIGN_4; Consts.K_IMAGE_SCN_ALIGN_8; Consts.K_IMAGE_SCN_LNK_NRELOC_OVFL; Consts.K_IMAGE_SCN_MEM_DISCARDABLE; Consts.K_IMAGE_SCN_MEM_NOT_CACHED; Consts.K_IMAGE_SCN_MEM_NOT_PAGED; Consts.K_IMAGE_SCN_MEM_SHARED; Consts.K_IMAGE_SCN_MEM_EXECUTE; Consts.K_IMAGE_SCN_MEM_READ; Consts.K_IMAGE_SCN_MEM_WRITE] /\
+  map fst Util.machine_table = [Consts.K_IMAGE_FILE_MACHINE_I386; Consts.K_IMAGE_FILE_MACHINE_AMD64; Consts.K_IMAGE_FILE_MACHINE_IA64] /\
+  map fst Util.optional_magic_table = [Consts.K_IMAGE_NT_OPTIONAL_HDR32_MAGIC; Consts.K_IMAGE_NT_OPTIONAL_HDR64_MAGIC; Consts.K_IMAGE_ROM_OPTIONAL_HDR_MAGIC] /\
+  map fst Util.subsystem_table = [Consts.K_IMAGE_SUBSYSTEM_UNKNOWN; Consts.K_IMAGE_SUBSYSTEM_NATIVE; Consts.K_IMAGE_SUBSYSTEM_WINDOWS_GUI; Consts.K_IMAGE_SUBSYSTEM_WINDOWS_CUI; Consts.K_IMAGE_SUBSYSTEM_OS2_CUI; Consts.K_IMAGE_SUBSYSTEM_POSIX_CUI; Consts.K_IMAGE_SUBSYSTEM_NATIVE_WINDOWS; Consts.K_IMAGE_SUBSYSTEM_WINDOWS_CE_GUI; Consts.K_IMAGE_SUBSYSTEM_EFI_APPLICATION; Consts.K_IMAGE_SUBSYSTEM_EFI_BOOT_SERVICE_DRIVER; Consts.K_IMAGE_SUBSYSTEM_EFI_RUNTIME_DRIVER; Consts.K_IMAGE_SUBSYSTEM_EFI_ROM; Consts.K_IMAGE_SUBSYSTEM_XBOX; Consts.K_IMAGE_SUBSYSTEM_WINDOWS_BOOT_APPLICATION] /\
+  map fst Util.directory_entry_table = [Consts.K_IMAGE_DIRECTORY_ENTRY_EXPORT; Consts.K_IMAGE_DIRECTORY_ENTRY_IMPORT; Consts.K_IMAGE_DIRECTORY_ENTRY_RESOURCE; Consts.K_IMAGE_DIRECTORY_ENTRY_EXCEPTION; Consts.K_IMAGE_DIRECTORY_ENTRY_SECURITY; Consts.K_IMAGE_DIRECTORY_ENTRY_BASERELOC; Consts.K_IMAGE_DIRECTORY_ENTRY_DEBUG; Consts.K_IMAGE_DIRECTORY_ENTRY_ARCHITECTURE; Consts.K_IMAGE_DIRECTORY_ENTRY_GLOBALPTR; Consts.K_IMAGE_DIRECTORY_ENTRY_TLS; Consts.K_IMAGE_DIRECTORY_ENTRY_LOAD_CONFIG; Consts.K_IMAGE_DIRECTORY_ENTRY_BOUND_IMPORT; Consts.K_IMAGE_DIRECTORY_ENTRY_IAT; Consts.K_IMAGE_DIRECTORY_ENTRY_DELAY_IMPORT; Consts.K_IMAGE_DIRECTORY_ENTRY_COM_DESCRIPTOR] /\
+  map fst Util.resource_name_table = [Consts.K_RT_CURSOR; Consts.K_RT_BITMAP; Consts.K_RT_ICON; Consts.K_RT_MENU; Consts.K_RT_DIALOG; Consts.K_RT_STRING; Consts.K_RT_FONTDIR; Consts.K_RT_FONT; Consts.K_RT_ACCELERATOR; Consts.K_RT_RCDATA; Consts.K_RT_MESSAGETABLE; Consts.K_RT_GROUP_CURSOR; Consts.K_RT_GROUP_ICON; Consts.K_RT_VERSION; Consts.K_RT_DLGINCLUDE; Consts.K_RT_PLUGPLAY; Consts.K_RT_VXD; Consts.K_RT_ANICURSOR; Consts.K_RT_ANIICON; Consts.K_RT_HTML; Consts.K_RT_MANIFEST] /\
+  map fst Util.reloc_type_table = [Consts.K_IMAGE_REL_BASED_ABSOLUTE; Consts.K_IMAGE_REL_BASED_HIGH; Consts.K_IMAGE_REL_BASED_LOW; Consts.K_IMAGE_REL_BASED_HIGHLOW; Consts.K_IMAGE_REL_BASED_HIGHADJ; Consts.K_IMAGE_REL_BASED_MACHINE_SPECIFIC_5; Consts.K_IMAGE_REL_BASED_MACHINE_SPECIFIC_7; Consts.K_IMAGE_REL_BASED_MACHINE_SPECIFIC_9; Consts.K_IMAGE_REL_BASED_DIR64] /\
+  map fst Util.unwind_op_table = [Consts.K_UWOP_PUSH_NONVOL; Consts.K_UWOP_ALLOC_LARGE; Consts.K_UWOP_ALLOC_SMALL; Consts.K_UWOP_SET_FPREG; Consts.K_UWOP_SAVE_NONVOL; Consts.K_UWOP_SAVE_NONVOL_FAR; Consts.K_UWOP_SAVE_XMM128; Consts.K_UWOP_SAVE_XMM128_FAR; Consts.K_UWOP_PUSH_MACHFRAME] /\
+  map fst Util.unwind_flag_table = [Consts.K_UNW_FLAG_NHANDLER; Consts.K_UNW_FLAG_EHANDLER; Consts.K_UNW_FLAG_UHANDLER; Consts.K_UNW_FLAG_FHANDLER; Consts.K_UNW_FLAG_CHAININFO] /\
+  map fst Util.debug_type_table = [Consts.K_IMAGE_DEBUG_TYPE_UNKNOWN; Consts.K_IMAGE_DEBUG_TYPE_COFF; Consts.K_IMAGE_DEBUG_TYPE_CODEVIEW; Consts.K_IMAGE_DEBUG_TYPE_FPO; Consts.K_IMAGE_DEBUG_TYPE_MISC; Consts.K_IMAGE_DEBUG_TYPE_EXCEPTION; Consts.K_IMAGE_DEBUG_TYPE_FIXUP; Consts.K_IMAGE_DEBUG_TYPE_OMAP_TO_SRC; Consts.K_IMAGE_DEBUG_TYPE_OMAP_FROM_SRC; Consts.K_IMAGE_DEBUG_TYPE_BORLAND; Consts.K_IMAGE_DEBUG_TYPE_RESERVED10; Consts.K_IMAGE_DEBUG_TYPE_CLSID; Consts.K_IMAGE_DEBUG_TYPE_VC_FEATURE; Consts.K_IMAGE_DEBUG_TYPE_POGO; Consts.K_IMAGE_DEBUG_TYPE_ILTCG; Consts.K_IMAGE_DEBUG_TYPE_MPX; Consts.K_IMAGE_DEBUG_TYPE_REPRO].
+Proof. exact UtilConsts.util_tables_from_source. Qed.
+Print Assumptions C02_util_tables_from_source.
